@@ -34,12 +34,25 @@ def child_main(case):
     slow = {int(k): v for k, v in (case.get("slow") or {}).items()}
     begin_delay = case.get("begin_delay", 0)
 
+    end_delay = case.get("end_delay", 0)
+    created = []
+
     class W(opp.BaseFunctorWorker, ctx.Process):
         def __init__(self, quota):
             opp.BaseFunctorWorker.__init__(self, ctx, math.inf if quota is None else quota)
+            self.begin_called = ctx.Event()
+            self.begin_done = ctx.Event()
+            self.end_done = ctx.Event()
+            created.append(self)
 
         def begin(self):
+            self.begin_called.set()
             _sleep(begin_delay)
+            self.begin_done.set()
+
+        def end(self):
+            _sleep(end_delay)
+            self.end_done.set()
 
         def __call__(self, x):
             if x % 1000 in slow:
@@ -78,10 +91,12 @@ def child_main(case):
             else:
                 pool = opp.FunctorPool([W(None) for _ in range(case["workers"])], ctx, wq, case.get("rq"))
             cdelay = case.get("cdelay") or [0]
+            out["not_ready_after_until_all_ready"] = 0
             with pool:
                 for ci, call in enumerate(case["calls"]):
                     if case.get("ready_at") == ci:
                         pool.until_all_ready()
+                        out["not_ready_after_until_all_ready"] += sum(1 for p in pool.procs if not p.begin_done.is_set())
                     fn = pool.imap if call["mode"] == "o" else pool.imap_unordered
                     res = []
                     out["outputs"].append(res)
@@ -94,6 +109,10 @@ def child_main(case):
                             break
                     out["calls_done"] += 1
                     print(json.dumps({"progress": out["calls_done"]}), flush=True)
+            # the moment the pool context has been left
+            out["alive_after_exit"] = sum(1 for w in created if w.pid is not None and w.exitcode is None)
+            out["end_not_done_after_exit"] = sum(1 for w in created if w.pid is not None and not w.end_done.is_set())
+            out["workers_created"] = len(created)
             out["left"] = True
         elif case["kind"] == "fmap":
             from windpyutils.parallel.pools import FunctorMap
